@@ -1,6 +1,6 @@
 //! data query expressions parser.
 use crate::debugger::variable::dqe::{Dqe, Literal, LiteralOrWildcard, PointerCast, Selector};
-use crate::ui::command::parser::{hex, rust_identifier};
+use crate::ui::command::parser::{hex, number, rust_identifier};
 use chumsky::Parser;
 use chumsky::prelude::*;
 use std::collections::HashMap;
@@ -44,16 +44,13 @@ pub fn literal<'a>() -> impl Parser<'a, &'a str, Literal, Err<'a>> + Clone {
     let op = |c| just(c).padded();
 
     recursive(|literal| {
-        let int = just("-")
-            .or_not()
-            .then(text::int(10).from_str::<u64>().unwrapped())
-            .map(|(sign, val)| {
-                Literal::Int(if sign.is_some() {
-                    -(val as i64)
-                } else {
-                    val as i64
-                })
-            });
+        let int = just("-").or_not().then(number::<u64>()).map(|(sign, val)| {
+            Literal::Int(if sign.is_some() {
+                -(val as i64)
+            } else {
+                val as i64
+            })
+        });
 
         let float = just("-")
             .or_not()
